@@ -112,19 +112,23 @@ theorem C38_conserves_unclamped_partial (r : Int) (hr : 0 < r) (chks : List Chun
 
 /-- **C38 end to end**: raw series → DownsampleRaw (resolution r1, numChunks nc1) →
     downsampleAggrLoop (resolution r2, numChunks nc2): the second level's total count is the
-    number of non-NaN raw samples and its total sum is their sum, for all series, resolutions
-    and chunk counts. -/
+    number of non-NaN raw samples, its total sum their sum, its overall minimum and maximum theirs,
+    for all series, resolutions and chunk counts. -/
 theorem C38_from_raw (r1 r2 : Int) (h1 : 0 < r1) (h2 : 0 < r2) (data : List Raw) (nc1 nc2 : Nat)
     (hn1 : 0 < nc1) (hn2 : 0 < nc2) (ok : RawOK data) :
     ∃ l1 l2, downsampleRaw data r1 nc1 = some l1 ∧ downsampleAggrLoop true l1 r2 nc2 = .ok l2 ∧
       C38_holds l1 l2 ∧
       ((l2.flatMap (·.count)).map (·.2)).sum = ((dropNaN data).length : Int) ∧
-      ((l2.flatMap (·.sum)).map (·.2)).sum = ((dropNaN data).map (·.2)).sum := by
+      ((l2.flatMap (·.sum)).map (·.2)).sum = ((dropNaN data).map (·.2)).sum ∧
+      ((l2.flatMap (·.min)).map (·.2)).min? = ((dropNaN data).map (·.2)).min? ∧
+      ((l2.flatMap (·.max)).map (·.2)).max? = ((dropNaN data).map (·.2)).max? := by
   obtain ⟨l1, e1, hwf⟩ := C36_wellformed r1 h1 data nc1 hn1 ok
   obtain ⟨l1', e1', t1, t2⟩ := C36_totals r1 h1 data nc1 hn1 ok
   rw [e1] at e1'; cases e1'
+  obtain ⟨l1'', e1'', t3, t4⟩ := C36_minmax r1 h1 data nc1 hn1 ok
+  rw [e1] at e1''; cases e1''
   obtain ⟨l2, e2, hh⟩ := C38_conserves r2 h2 l1 nc2 hn2 hwf
-  exact ⟨l1, l2, e1, e2, hh, hh.count.trans t1, hh.sum.trans t2⟩
+  exact ⟨l1, l2, e1, e2, hh, hh.count.trans t1, hh.sum.trans t2, hh.min.trans t3, hh.max.trans t4⟩
 
 /-- Regenerated obligations: how the loop computes `batchSize` (the repaired expression, which
     is the one the driver's model uses: `aggrClampNow`) and what it tests. -/
